@@ -377,7 +377,7 @@ mod pool_sc {
     pub fn exec(prefix: &[usize], em: &mut Emitter, stop: bool, unknown: bool, rewait: bool, twostep: bool) {
         std::panic::set_hook(Box::new(|_| {}));
         open_coroutine_core::verif::clock_enable(T0);
-        init(&["wait:checked", "wait:registered", "wait:woken", "run:popped", "run:inserted", "clean:waiter"], false);
+        init(&["wait:checked", "wait:registered", "wait:block", "wait:woken", "run:popped", "run:inserted", "clean:waiter"], false);
         let pool = Box::leak(Box::new(CoroutinePool::new("ppx-pool".to_string(), 64 * 1024, 0, 2, 0)));
         let tid = pool.submit_task(Some("ppx-task".to_string()), |_| Some(7), None, None).expect("submit");
         if twostep {
@@ -459,7 +459,8 @@ mod pool_sc {
         // what a real waiter sees when the other thread is slow - unless everything that could ever wake
         // it had ALREADY happened when the sleep began: then it is a lost wake-up.
         let pos = |l: &str| if l.starts_with("T0:wait") { order.iter().rposition(|x| x == l) } else { order.iter().position(|x| x == l) };
-        let sleep_begins = pos("T0:wait:registered");
+        // the (virtual) sleep happens right after the waiter is released from "wait:block"
+        let sleep_begins = pos("T0:wait:block");
         let settled_before_sleep = match (sleep_begins, if stop { pos("T1:end") } else { pos("T1:run:inserted") }) {
             (Some(s), Some(e)) => e < s,
             _ => false,
